@@ -109,7 +109,7 @@ pub fn ls_check(id: &str) -> Option<LsCheck> {
             rule: "quiescent lock-step cases under a virtual clock, ample capacity in a third of the cases and tight capacity (evictions) in the rest, TTLs from 1ns to 1h, advances aimed at second boundaries and deadlines +-1ns; non-trivial = a lookup within 1s of the key's deadline or within 1ns of a second boundary, or a TTL<->no-TTL re-insert followed by a cleanup tick; distinct by case hash",
             nontrivial: |f| f.ttl_boundary_lookups > 0 || f.ttl_switch_then_tick > 0,
             assumptions: &["time is the virtual clock served to SystemTime::now() (monotone)"],
-            scenarios: vec![(1000, clear_reuse_scenario)],
+            scenarios: vec![(1000, clear_reuse_scenario), (400, sweep_race_scenario)],
         },
         "C04" => LsCheck {
             id: "C04",
@@ -372,6 +372,7 @@ pub fn ls_check(id: &str) -> Option<LsCheck> {
                 w: w(|w| {
                     w.get = 45;
                     w.getmut = 8;
+                    w.getwide = 4;
                     w.policy = 9;
                     w.insert = 14;
                     w.clear = 1;
@@ -381,7 +382,7 @@ pub fn ls_check(id: &str) -> Option<LsCheck> {
             },
             quick: 16_000,
             thorough: 300_000,
-            rule: "lock-step cases with a parked policy worker, buffer_items in {0,1,2,3,5,64}; non-trivial = >=1 flushed batch containing a missed key or >=1 dropped batch; distinct by case hash",
+            rule: "lock-step cases with a parked policy worker, buffer_items in {0,1,2,3,5,64}, lookups of the table keys and runs of lookups of up to hundreds of distinct absent keys (several aging windows, doorkeeper filled many times over); non-trivial = >=1 flushed batch containing a missed key or >=1 dropped batch; distinct by case hash",
             nontrivial: |f| f.batches_with_miss > 0 || f.batches_dropped > 0,
             assumptions: &["sync: a batch is dropped iff 3 batches are already queued; async: never while open"],
             scenarios: vec![],
@@ -413,6 +414,7 @@ pub fn ls_check(id: &str) -> Option<LsCheck> {
                 name: "metrics",
                 cap: Cap::Tight,
                 metrics: Some(true),
+                negative_costs: true,
                 ttl_pct: 30,
                 w: w(|w| {
                     w.get = 20;
@@ -423,7 +425,7 @@ pub fn ls_check(id: &str) -> Option<LsCheck> {
             },
             quick: 24_000,
             thorough: 400_000,
-            rule: "lock-step cases with metrics on; non-trivial = (>=1 eviction and >=1 cost-decreasing update) or >=1 dropped set; distinct by case hash",
+            rule: "lock-step cases with metrics on, a tenth of the explicit costs negative (the cost counters wrap by design); non-trivial = (>=1 eviction and >=1 cost-decreasing update) or >=1 dropped set; distinct by case hash",
             nontrivial: |f| (f.admissions_with_eviction > 0 && f.cost_decreasing_updates > 0) || f.dropped_sets > 0,
             assumptions: &["counters compared at every step in the parked engine (every step is a quiescent point of the stripes)"],
             scenarios: vec![],
@@ -834,7 +836,8 @@ pub fn comp_parts(id: &str) -> Vec<CompPart> {
             CompPart { engine: "tiny", quick: 100_000, thorough: 2_000_000 },
         ],
         "C14" => vec![CompPart { engine: "bloom", quick: 60_000, thorough: 1_000_000 }],
-        "C18" => vec![CompPart { engine: "keys", quick: 60_000, thorough: 1_000_000 }],
+        "C18" => vec![CompPart { engine: "keys", quick: 60_000, thorough: 1_000_000 }, CompPart { engine: "typed-keys", quick: 1_200, thorough: 24_000 }],
+        "C02" => vec![CompPart { engine: "typed-keys", quick: 1_200, thorough: 24_000 }],
         "C17" => vec![CompPart { engine: "hist", quick: 60_000, thorough: 1_000_000 }],
         "C04" => vec![CompPart { engine: "typed-c04", quick: 1_600, thorough: 30_000 }],
         "C09" => vec![CompPart { engine: "typed-c09", quick: 1_600, thorough: 30_000 }],
@@ -857,6 +860,7 @@ pub fn run_comp_part(prop: &str, part: &CompPart, tier: &str, seed: u64, stats: 
         "typed-c09" => run_comp(prop, "typed", comp::typed_strategy, comp::run_typed_c09, n, seed, stats),
         "typed-c03" => run_comp(prop, "typed", comp::typed_strategy, comp::run_typed_c03, n, seed, stats),
         "typed-all" => run_comp(prop, "typed", comp::typed_strategy, comp::run_typed_all, n, seed, stats),
+        "typed-keys" => run_comp(prop, "typed", comp::keyed_strategy, comp::run_typed_c04, n, seed, stats),
         _ => unreachable!(),
     }
 }
@@ -892,6 +896,10 @@ pub fn comp_rule(id: &str) -> (&'static str, &'static [&'static str]) {
             "bloom filter through the facade: capacity 1..5000 (biased to small and 2^k+-1), rate in {0.001,0.01,0.05,0.1,0.3}; structured hash sets; ops add / contains_or_add / reset / clear, membership checked after every op; statistical part: n random hashes into a filter built for n, 4000 fresh probes, fail above 4pm+5sqrt(pm)+8; non-trivial = membership ops on a structured set, or a false-positive measurement (n>=50); distinct by case hash",
             &["the false-positive bound is claimed for uniformly random hashes only"],
         ),
+        "C02" | "C18" => (
+            "key types (E4b typed-keys): quiescent histories (wait() after every write, real workers, sync and async) of insert / insert_with_ttl / insert_if_present / remove over five key slots against an exact map, on caches keyed by i8..i64, u8..u64, isize, usize under TransparentKeyBuilder and by String / i64 under DefaultKeyBuilder; the slots hold boundary values of the type (two keys equal in the low half of the width, -1 / MAX, the low half all ones, the sign bit); every slot is looked up after every step; non-trivial = an insert_if_present on a resident key; distinct by case hash",
+            &["ample capacity (max_cost 2^40): no eviction, no rejection"],
+        ),
         _ => ("", &[]),
     }
 }
@@ -918,7 +926,7 @@ pub fn stress_parts(id: &str) -> Vec<StressPart> {
         "C02" => vec![p(Kind::Invariants, 640, 12000, 25), p(Kind::Validated, 200, 4000, 25), pc(Kind::Invariants, 2400, 20000, 25)],
         "C17" => vec![p(Kind::Invariants, 640, 12000, 25), p(Kind::Lookups, 240, 4000, 35)],
         "C01" | "C06" => vec![p(Kind::Invariants, 640, 12000, 25)],
-        "C08" => vec![p(Kind::Invariants, 640, 16000, 25), p(Kind::Close, 640, 10000, 30)],
+        "C08" => vec![p(Kind::Invariants, 640, 16000, 25)],
         "C11" => vec![p(Kind::Invariants, 640, 12000, 25)],
         "C04" => vec![p(Kind::Invariants, 320, 6000, 25)],
         "C05" => vec![p(Kind::Reclaim, 96, 2000, 50)],
